@@ -1,5 +1,6 @@
 import ScrapliModel.Lemmas.Close
 import ScrapliModel.Close.AsIs
+import ScrapliModel.Generated.TransportClose
 /-!
 # C07 — Close always completes: no panic, deadlock, leaked goroutine or data race
 
@@ -108,6 +109,35 @@ theorem canonical_executions_complete :
   decide +kernel
 
 example (s : St) (hs : s ∈ inits) : Exec s (greedyTrace 80 s) (greedy 80 s) := greedy_exec 80 s
+
+/-! ### `Transport.Close`: every path that returns has closed the implementation
+
+The closer's steps `nice` / `niceLk` / `force` of the transition system stand for
+`transport.(*Transport).Close(false | true)`. Its body is regenerated from the source on every run
+(`Generated/TransportClose.lean`); an added early `return`, condition (`IsAlive()` …) or lock on the
+forced path breaks `generated_transportClose_eq`. -/
+
+/-- the body of `Transport.Close` as the source reads now is the body the model was written from -/
+theorem generated_transportClose_eq : Gen.TransportClose.body = TC.model := by decide
+
+/-- every path through `Transport.Close` — forced or not — returns, has called `Impl.Close()`
+exactly once, takes `implLock` iff the close is not forced and does not leave it held -/
+theorem transportClose_closes_impl : TC.bodyOk Gen.TransportClose.body = true := by
+  rw [generated_transportClose_eq]; decide
+
+/-- spelled out: whatever `force` is, the only path is "returned, one `Impl.Close()`" — which is
+what the closer's `nice` / `force` steps do to `closeCalls` (and why `nice` needs `implLock` free) -/
+theorem transportClose_paths (force : Bool) :
+    TC.allPaths force Gen.TransportClose.body
+      = [{ returned := true, implCloses := 1, tookLock := !force, heldAtExit := false, unknown := false }] := by
+  rw [generated_transportClose_eq]; cases force <;> decide
+
+/-- the obligation is not vacuous: a body with an early `return nil` guarded by some liveness test
+(the shape of a "skip the close when the peer is gone" shortcut) violates it, and so does a lock
+on the forced path -/
+example : TC.bodyOk [.ifNotForce, .lock, .deferUnlock, .ifOther "!recv.Impl.IsAlive()", .ret "nil", .endIf, .endIf,
+    .retImplClose] = false := by decide
+example : TC.bodyOk [.lock, .deferUnlock, .retImplClose] = false := by decide
 
 /-! ### the unrepaired skeleton fails
 
